@@ -64,8 +64,8 @@ class RecEst(BaseEstimator, ClassifierMixin):
              proba -> predict_proba only (no decision_function)
              order -> 4 * X[:, col] + w * (id mod 2), w a function of the ORDER of the training rows  """
 
-    def __init__(self, kind="feat", col=1, token=0):
-        self.kind, self.col, self.token = kind, col, token
+    def __init__(self, kind="feat", col=1, token=0, offset=0):
+        self.kind, self.col, self.token, self.offset = kind, col, token, offset
 
     def fit(self, X, y):
         self.classes_ = np.array([0, 1])
@@ -79,6 +79,10 @@ class RecEst(BaseEstimator, ClassifierMixin):
         return self
 
     def _raw(self, X):
+        r = self._raw0(X)
+        return r + float(self.offset) if self.offset else r      # a large intercept: raw scores far from 0, small spread
+
+    def _raw0(self, X):
         if self.kind in ("feat", "proba"):
             return X[:, self.col].astype(float)
         if self.kind == "anti":
@@ -182,7 +186,7 @@ def run_brew(case, workdir=None, keep=False):
         dsets = build_inputs(case, wd)
         thr = case.get("thr", [1, 1])
         tthr = case.get("train_thr", [1, 1])
-        est = RecEst(kind=case.get("est", "feat"), col=case.get("col", 1), token=tok)
+        est = RecEst(kind=case.get("est", "feat"), col=case.get("col", 1), token=tok, offset=int(case.get("est_offset", 0)))
         model = RModel(est, scaler="as-is", train_fdr=tthr[0] / tthr[1], max_iter=case.get("max_iter", 1),
                        direction=case.get("direction", "f1"), override=case.get("override", False),
                        shuffle=case.get("shuffle", True), token=tok)
